@@ -43,6 +43,11 @@ func init() {
 		addv(2, "connect+close", "connect", "none", false)
 		addv(2, "connect+close", "connect", "shutdown", false)
 		addv(1, "connect+close", "connect+send", "none", false)
+		// a handler that is still running when Shutdown's deadline passes, next to an idle connection
+		// (both orders of acceptance): the idle one has to be closed, the busy one left running
+		addv(1, "connect+hold", "connect", "shutdown-deadline", false)
+		addv(1, "connect", "connect+hold", "shutdown-deadline", false)
+		addv(1, "connect+hold", "-", "shutdown-deadline", false)
 		if tier == "thorough" {
 			addv(2, "connect+close", "connect+send", "shutdown", false)
 			addv(1, "connect+send", "connect+close", "shutdown", false)
@@ -62,11 +67,15 @@ func serverScenario(pollers int, c1, c2, shutdown string, emfile bool) *vsched.S
 	var ctxFired bool
 	var retTracked, retOpen, retBusy []int // at the moment Shutdown returned nil: tracked descriptors, open accepted descriptors, descriptors with a user callback executing
 	var inCallback map[int]int
+	var released bool // set once Shutdown has returned: handlers that hold may finish
+	var holdFd int
+	settled := strings.Contains(c1+c2, "hold")
 	sc := &vsched.Scenario{Name: "server", Horizon: 10000}
 	sc.Body = func() {
 		srv, serveErr, shutErr, serveRet, shutRet, clientFds, connected, ctxFired = nil, nil, nil, false, false, nil, 0, false
 		retTracked, retOpen, retBusy = nil, nil, nil
 		inCallback = map[int]int{}
+		released, holdFd = false, -1
 		netpoll.VerifReset(pollers)
 		srvCounter++
 		name := fmt.Sprintf("verif-%d-%d", os.Getpid(), srvCounter)
@@ -80,8 +89,13 @@ func serverScenario(pollers int, c1, c2, shutdown string, emfile bool) *vsched.S
 			inCallback[fd]++
 			vsched.LogEvent(fmt.Sprintf("request:start fd=%d", fd))
 			r := c.Reader()
-			r.Next(r.Len())
+			p, _ := r.Next(r.Len())
+			hold := len(p) > 0 && p[0] == 'H'
 			r.Release()
+			if hold {
+				holdFd = fd
+				vsched.WaitCond("handler-release", func() bool { return released })
+			}
 			steps(c, 1)
 			vsched.LogEvent("request:end")
 			inCallback[fd]--
@@ -130,6 +144,8 @@ func serverScenario(pollers int, c1, c2, shutdown string, emfile bool) *vsched.S
 						vsched.LogEvent(fmt.Sprintf("client%d:connected", id))
 					case "send":
 						vsyscall.HWrite(fd, stream(0, 4))
+					case "hold":
+						vsyscall.HWrite(fd, []byte("HOLD")) // the handler for this request blocks until Shutdown has returned
 					case "close":
 						vsyscall.HClose(fd)
 						vsched.LogEvent(fmt.Sprintf("client%d:closed", id))
@@ -149,6 +165,11 @@ func serverScenario(pollers int, c1, c2, shutdown string, emfile bool) *vsched.S
 					ctx, cancel = vcontext.WithTimeout(ctx, 300*time.Millisecond)
 					defer cancel()
 				}
+				if settled {
+					// everything that can finish has finished: idle connections are idle, the holding
+					// handler is parked inside user code
+					vsched.Settle("before-shutdown")
+				}
 				vsched.LogEvent("shutdown:call")
 				shutErr = e.Shutdown(ctx)
 				if shutErr == nil && srv != nil {
@@ -165,6 +186,7 @@ func serverScenario(pollers int, c1, c2, shutdown string, emfile bool) *vsched.S
 				}
 				ctxFired = ctx.Err() != nil
 				shutRet = true
+				released = true
 				vsched.LogEvent("shutdown:ret " + fmt.Sprint(shutErr))
 			})
 		}
@@ -283,6 +305,20 @@ func serverScenario(pollers int, c1, c2, shutdown string, emfile bool) *vsched.S
 			}
 		} else if shutdown != "none" && ex.End == vsched.EndQuiescent {
 			add("shutdown-never-returned", "Shutdown did not return")
+		}
+		if shutRet && sc0 >= 0 && settled {
+			// (only where Shutdown was called at quiescence, so that "idle" is unambiguous)
+			// "closes idle connections, leaves busy ones running" - also when it gives up at its deadline
+			for _, r := range led.Recs {
+				if r.Kind != "accepted" {
+					continue
+				}
+				ci := l.last(fmt.Sprintf("connect fd=%d", r.Fd))
+				everBusy := l.count(fmt.Sprintf("request:start fd=%d", r.Fd)) > 0
+				if ci >= 0 && ci < sc0 && !everBusy && r.Closes <= 0 && r.Fd != holdFd {
+					add("idle-connection-left-open", fmt.Sprintf("Shutdown returned (%v) but the idle connection on descriptor %d, fully accepted before the call and never busy, was not closed", shutErr, r.Fd))
+				}
+			}
 		}
 		return vs
 	}
